@@ -44,9 +44,8 @@ pub fn main(a: &Args) -> i32 {
         sim.drain_events();
         Ok(json!({"connect": r.is_ok(), "rpc": resp.is_ok()}))
     });
-    for l in &out.lines {
-        println!("{l}");
-    }
+    let path = a.str("out", "/verif/work/smoke.ndjson");
+    crate::trace::write_ndjson(std::path::Path::new(&path), &out.lines).unwrap();
     eprintln!("result={:?} panics={:?} virtual_ms={}", out.result, out.panics, out.virtual_ms);
     0
 }
